@@ -24,9 +24,6 @@ Definition comp1 := PComprehension (PName "x") (PName "y") [] false.
 (* (a + b) * c  ->  a + b * c *)
 Definition w_F1 := PBinOp (PBinOp a B_Add b) B_Mult c.
 Lemma refuted_F1 : refutes G_GROUP w_F1. Proof. refute. Qed.
-(* {**a}  ->  {None: a} *)
-Definition w_F2 := PDict [PDictItem None a].
-Lemma refuted_F2 : refutes G_DICT_UNPACK w_F2. Proof. refute. Qed.
 (* f'{a}{'{'}' : literal brace not doubled *)
 Definition w_F3 := PJoinedStr [PFormattedValue a (-1) None; PStr "'{'" "{" None].
 Lemma refuted_F3 : refutes G_FSTRING w_F3. Proof. refute. Qed.
@@ -36,9 +33,6 @@ Lemma refuted_F4 : refutes G_LAMBDA w_F4. Proof. refute. Qed.
 (* lambda p, /: 0  ->  lambda p: 0 *)
 Definition w_F4b := PLambda [PParam "p" None] [] None [] None (PNum true "0").
 Lemma refuted_F4b : refutes G_LAMBDA w_F4b. Proof. refute. Qed.
-(* {a: b for x in y}  ->  {a: bfor x in y} *)
-Definition w_F5 := PDictComp a b [comp1].
-Lemma refuted_F5 : refutes G_DICTCOMP w_F5. Proof. refute. Qed.
 (* (x for x in y)  ->  x for x in y *)
 Definition w_F6 := PGeneratorExp (PName "x") [comp1].
 Lemma refuted_F6 : refutes G_GENEXP w_F6. Proof. refute. Qed.
@@ -54,12 +48,19 @@ Lemma refuted_F9 : refutes G_INT_ATTR w_F9. Proof. refute. Qed.
 (* f(await x): nothing is stored *)
 Definition w_F10 := PCall (PName "f") [PAwait (PName "x")] [].
 Lemma refuted_F10 : refutes G_AWAIT w_F10. Proof. refute. Qed.
-(* a[f((1, 2))]  ->  a[f(1, 2)] *)
+(* repaired defects (F2 dict unpacking, F5 dict comprehension spacing, F11 in_subscript leak, F12 non-finite literals):
+   their former witnesses are now inside the theorem's domain and render exactly as the reference printer does *)
+Definition w_F2 := PDict [PDictItem None a].
+Definition w_F5 := PDictComp a b [comp1].
 Definition w_F11 := PSubscript a false (PCall (PName "f") [PTuple [PNum true "1"; PNum true "2"]] []).
-Lemma refuted_F11 : refutes G_SUBSCRIPT_LEAK w_F11. Proof. refute. Qed.
-(* 1e400  ->  inf *)
-Definition w_F12 := PNum false "inf".
-Lemma refuted_F12 : refutes G_INF w_F12. Proof. refute. Qed.
+Definition w_F12 := PList [PNum false "inf"; PNum false "infj"; PNum false "1.5"; PNum true "7"].
+Example repaired_witnesses_gapfree :
+  forallb (fun e => wf e && negb (known_gap P_TEST e)) [w_F2; w_F5; w_F11; w_F12] = true.
+Proof. reflexivity. Qed.
+Example repaired_witnesses_text :
+  map (fun e => option_map render (build ctx0 e)) [w_F2; w_F5; w_F11; w_F12]
+  = [Some "{**a}"; Some "{a: b for x in y}"; Some "a[f((1, 2))]"; Some "[1e309, 1e309j, 1.5, 7]"].
+Proof. reflexivity. Qed.
 
 Theorem render_claim_refuted : exists e, wf e = true /\ ~ render_claim P_TEST e.
 Proof. exists w_F1. destruct refuted_F1 as [H [_ H']]. split; assumption. Qed.
@@ -105,24 +106,33 @@ Fixpoint chain_names (path : string) (attrs : list string) : list gexpr :=
   | x :: r => GName x (ParName path) :: chain_names (path ++ "." ++ x) r
   end.
 
-Lemma chain_step (cx : bctx) (e : pyexpr) (vs : list gexpr) (path : string) (attrs : list string) :
-  build cx e = Some (GAttribute vs) -> gname_path (last vs (GStr "")) = path ->
-  build cx (chain_expr e attrs) = Some (GAttribute (vs ++ chain_names path attrs)).
+Lemma chain_step (m : pmode) (j f : bool) (e : pyexpr) (vs : list gexpr) (path : string) (attrs : list string) :
+  build (mkCtx m false j f) e = Some (GAttribute vs) -> gname_path (last vs (GStr "")) = path ->
+  build (mkCtx m false j f) (chain_expr e attrs) = Some (GAttribute (vs ++ chain_names path attrs)).
 Proof.
   revert e vs path. induction attrs as [|x r IH]; intros e vs path Hb Hp.
   - simpl. rewrite app_nil_r. exact Hb.
   - cbn [chain_expr chain_names].
     rewrite (IH (PAttribute e x) (vs ++ [GName x (ParName path)]) (path ++ "." ++ x)%string).
     + rewrite <- app_assoc. reflexivity.
-    + cbn [build mapped node_builder]. rewrite Hb. cbn [attach_attr]. rewrite Hp. reflexivity.
+    + cbn [build enter keeps_insub pm insub injoin infmt mapped node_builder]. rewrite Hb. cbn [attach_attr]. rewrite Hp. reflexivity.
     + rewrite last_last. reflexivity.
+Qed.
+
+Lemma chain_head (e : pyexpr) (x : string) (attrs : list string) : exists e' z, chain_expr e (x :: attrs) = PAttribute e' z.
+Proof.
+  revert e x. induction attrs as [|y r IH]; intros e x; [exists e, x; reflexivity|].
+  change (chain_expr e (x :: y :: r)) with (chain_expr (PAttribute e x) (y :: r)). apply IH.
 Qed.
 
 Theorem dotted_chain_parent_links (cx : bctx) (r x : string) (attrs : list string) :
   build cx (chain_expr (PName r) (x :: attrs)) = Some (GAttribute (GName r ParScope :: chain_names r (x :: attrs))).
 Proof.
-  cbn [chain_expr chain_names].
-  rewrite (chain_step cx (PAttribute (PName r) x) [GName r ParScope; GName x (ParName r)] (r ++ "." ++ x)%string attrs).
+  destruct cx as [m s j f].
+  assert (Hs : build (mkCtx m s j f) (chain_expr (PName r) (x :: attrs)) = build (mkCtx m false j f) (chain_expr (PName r) (x :: attrs))).
+  { destruct (chain_head (PName r) x attrs) as [e' [z ->]]. reflexivity. }
+  rewrite Hs. cbn [chain_expr chain_names].
+  rewrite (chain_step m j f (PAttribute (PName r) x) [GName r ParScope; GName x (ParName r)] (r ++ "." ++ x)%string attrs).
   - reflexivity.
   - reflexivity.
   - reflexivity.
